@@ -55,6 +55,7 @@ def run(ctx):
     ctx.guard(r4_reset)
     ctx.guard(r5_confined)
     ctx.guard(r6_ticks)
+    ctx.guard(r7_collecting_preconditions)
     ctx.assume("asserts of the metrics API may abort a collecting run "
                "(termination-insensitive non-interference)")
     ctx.assume("Fiber._saved_* statistics do not influence results (C03/C07 "
@@ -64,6 +65,59 @@ def run(ctx):
 def _walk(stmts):
     from ..cfg import walk_own
     return walk_own(stmts)
+
+
+# -- R7: what a function demands only while collecting, its callers in the
+# library supply -------------------------------------------------------------
+
+def r7_collecting_preconditions(ctx):
+    """Fiber.project builds an iterator whose constructor asserts, only
+    while metrics are collected, that a destination rank id was given
+    (`assert not is_collecting or self.rank is not None`, rank = the
+    rank_id parameter).  A call inside the library that omits rank_id works
+    with collection off and aborts with it on: the same kernel gives a
+    result in one mode and an AssertionError in the other.  Every call of
+    Fiber.project from library code must therefore pass rank_id."""
+    f = ctx.method("Fiber", "project")
+    prm = None
+    for ci in f.inner_classes.values():
+        init = ci.methods.get("__init__")
+        if init is None:
+            continue
+        for a in init.own_nodes():
+            if not isinstance(a, ast.Assert):
+                continue
+            t = text(a.test).replace(" ", "")
+            m_ = [n for n in ast.walk(a.test) if isinstance(n, ast.Attribute)
+                  and text(n.value) == init.params[0]]
+            if ("is_collecting" in t or "Metrics.isCollecting()" in t) and m_:
+                attr = m_[0].attr
+                src = ci.class_attrs.get(attr)
+                if isinstance(src, ast.Name) and src.id in f.all_param_names():
+                    prm = src.id
+    if prm is None:
+        ctx.info("C15.R7: Fiber.project no longer has a collecting-only "
+                 "precondition on a parameter; nothing to supply")
+        return
+    idx = f.params.index(prm) - 1 if prm in f.params else None
+    n = 0
+    for caller, call, tg in ctx.eff.call_sites.get(f, []):
+        if caller.module.rel.startswith(("graphics/", "notebook/")):
+            continue
+        n += 1
+        v = pat.kwarg(call, prm, idx)
+        if v is not None and not (isinstance(v, ast.Constant) and v.value is None):
+            ctx.ok("C15.R7", caller, call, "passes %s to project" % prm,
+                   text_="project call supplies %s" % prm)
+        else:
+            ctx.bad("C15.R7", caller, call,
+                    "%s calls Fiber.project without `%s`, which project's "
+                    "iterator asserts to be given while metrics are collected: "
+                    "the call works with collection off and raises "
+                    "AssertionError with it on (e.g. `Fiber([1,3],[7,8]) & "
+                    "Fiber([(1,2),(3,4)],[5,6])` between beginCollect and "
+                    "endCollect)" % (caller.key.split(":")[-1], prm))
+    ctx.floor("C15.R7", n, 2, "library calls of Fiber.project")
 
 
 def _is_metrics_call(n):
